@@ -1678,7 +1678,7 @@ class ContractionTree:
                     tree.info[node].pop(k, None)
 
         tree.already_optimized.clear()
-        tree.contraction_cores.clear()
+        tree._reset_contraction_recipes()
 
         return tree
 
@@ -1725,7 +1725,7 @@ class ContractionTree:
 
         # reset caches
         tree.already_optimized.clear()
-        tree.contraction_cores.clear()
+        tree._reset_contraction_recipes()
 
         return tree
 
@@ -1946,7 +1946,7 @@ class ContractionTree:
                 pbar.close()
 
         # invalidate any compiled contractions
-        tree.contraction_cores.clear()
+        tree._reset_contraction_recipes()
 
         return tree
 
@@ -2899,6 +2899,27 @@ class ContractionTree:
         """
         return get_hypergraph(self.inputs, self.output, self.size_dict, accel)
 
+    def _reset_contraction_recipes(self):
+        """Delete everything that is derived from the explicit index order of
+        the nodes (einsum equations, tensordot axes and permutations), but not
+        the orders themselves, and invalidate any compiled contractions. This
+        needs to be called whenever nodes have been removed, re-added or had
+        their index order changed, since the recipes cached on a *parent*
+        refer to the index order of its children.
+        """
+        for node in self.children:
+            node_info = self.info[node]
+            for k in (
+                "einsum_eq",
+                "can_dot",
+                "tensordot_axes",
+                "tensordot_perm",
+            ):
+                node_info.pop(k, None)
+
+        # invalidate any compiled contractions
+        self.contraction_cores.clear()
+
     def reset_contraction_indices(self):
         """Reset all information regarding the explicit contraction indices
         ordering.
@@ -3001,7 +3022,7 @@ class ContractionTree:
                     self.info[r]["inds"] = r_inds
 
         # invalidate any compiled contractions
-        self.contraction_cores.clear()
+        self._reset_contraction_recipes()
 
     def print_contractions(self, sort=None, show_brackets=True):
         """Print each pairwise contraction, with colorized indices (if
